@@ -30,15 +30,19 @@ def rec(coll, r, i):
         return dict(id=f'w{i}', name=u('name'), ver=r.randint(0, 99), size=r.randint(0, 9999), create_time=big(), update_time=big(), data=u('data'), timestamp=big())
     if coll == 'events':
         return dict(id=f'e{i}', name=u('name'), mid=r.choice(['m1', 'm2', 'm3']), ver=r.randint(0, 99), uses=u('uses'), params=u('params'), create_time=big(), timestamp=big())
+    if coll == 'packages':
+        return dict(id=f'pk{i}', desc=u('desc'), icon=u('icon'), doc=u('doc'), version=u('ver'), schema=u('schema'), run_as=r.choice(['func', 'irq', 'msg']), resources=u('res'),
+                    catalog=r.choice(['core', 'event', 'transform', 'form', 'ai', 'app']), built_in=r.random() < 0.5, create_time=big(), update_time=big(), timestamp=big())
     raise ValueError(coll)
 
 
 NUM = {'tasks': ['start_time', 'end_time', 'timestamp'], 'procs': ['start_time', 'end_time', 'timestamp'],
        'messages': ['start_time', 'end_time', 'create_time', 'update_time', 'retry_times', 'status', 'timestamp'],
-       'models': ['ver', 'size', 'create_time', 'update_time', 'timestamp'], 'events': ['ver', 'create_time', 'timestamp']}
-NULLABLE = {'tasks': ['prev', 'err'], 'procs': ['err'], 'messages': [], 'models': [], 'events': []}
+       'models': ['ver', 'size', 'create_time', 'update_time', 'timestamp'], 'events': ['ver', 'create_time', 'timestamp'],
+       'packages': ['create_time', 'update_time', 'timestamp']}
+NULLABLE = {'tasks': ['prev', 'err'], 'procs': ['err'], 'messages': [], 'models': [], 'events': [], 'packages': []}
 # the status column is an enum stored as a number on both back ends; filters use the enum value
-NOFILTER = {'messages': [], 'tasks': [], 'procs': [], 'models': [], 'events': []}
+NOFILTER = {'messages': [], 'tasks': [], 'procs': [], 'models': [], 'events': [], 'packages': ['built_in']}
 
 
 def gen_query(coll, r, db):
@@ -86,9 +90,12 @@ class StoreFamily:
     name = 'store'
 
     def gen(self, rng, idx, opts):
-        coll = rng.choice(['tasks', 'procs', 'messages', 'models', 'events'])
+        coll = rng.choice(['tasks', 'procs', 'messages', 'models', 'events', 'packages'])
         db, ops, exp, nid = {}, [], [], 0
         gone = []
+        if coll == 'packages':
+            ops.append(dict(op='store', coll=coll, call='purge', arg=None))
+            exp.append(None)
         for _ in range(opts.get('nops', 60)):
             c = rng.random()
             if c < 0.3 or not db:
@@ -205,7 +212,9 @@ class StoreFamily:
             return cache[key]
         db = {}
         for op in c['scenarios'][0]['ops'][:upto]:
-            if op['call'] == 'create' or (op['call'] == 'update' and op['arg']['id'] in db):
+            if op['call'] == 'purge':
+                db.clear()
+            elif op['call'] == 'create' or (op['call'] == 'update' and op['arg']['id'] in db):
                 db[op['arg']['id']] = op['arg']
             elif op['call'] == 'delete':
                 db.pop(op['arg'], None)
